@@ -34,6 +34,9 @@ EXTRA = [
     # a cas token that is not a number must not reach the wire (it would change how many replies come back)
     ops.Op("cas", "a", b"9", b"1 noreply", noreply=False),
     ops.Op("cas", "a", b"9", b"12\r\n", noreply=True),
+    # flush_all with a delay, under both reply modes (the order of its optional words matters to the server)
+    ops.Op("flush_all", 30),
+    ops.Op("flush_all", delay=30, noreply=False),
 ]
 
 
